@@ -63,8 +63,9 @@ def units(thorough):
         u.append(('parts-%s-walks2' % kind, 'walks',
                   cfg(Kind=kind, NParts=3, Procs=2, MaxPid=4, MaxTime=3, Grace=1, Statuses=[-9])))
     # more parts than workers, several of them failing while others have not even been accepted
-    u.append(('parts-map-fail3', 'small',
-              cfg(Kind='map', NParts=3, Procs=2, MaxPid=2, MaxTime=0, Statuses=[-9], Results=['err'])))
+    if thorough:
+        u.append(('parts-map-fail3', 'small',
+                  cfg(Kind='map', NParts=3, Procs=2, MaxPid=2, MaxTime=0, Statuses=[-9], Results=['err'])))
     u.append(('parts-map-chunked', 'small',
               cfg(Kind='map', NParts=2, Procs=1, MaxPid=2, MaxTime=2, Quota=1, ChunkSize=2,
                   Results=['ok', 'err'])))
